@@ -23,6 +23,16 @@ pub struct Case {
 
 /// schedule entry (e, DROP_RESTART): drop evaluator e's iterator and create a fresh instance
 pub const DROP_RESTART: u16 = 0xffff;
+/// schedule entry (e, FAILED_SIBLING): an evaluator with an invalid board (a fourth card, a flop
+/// card twice, or only two cards - derived from evaluator e's flop) is built and started under
+/// catch_unwind; whether that panics or not, the live evaluators and later ones must not notice
+pub const FAILED_SIBLING: u16 = 0xfffe;
+/// schedule entry (e, MANY_SIBLINGS): about 250 short-lived evaluators on other flops are built,
+/// advanced once and dropped; the first such entry of a case whose e is a multiple of 4 builds
+/// about 65,500 instead.  Afterwards 64 rounds of: one more sibling, restart one of the case's
+/// evaluators from scratch, two steps - so that fresh instances are created 250..314 resp.
+/// 65,500..65,564 constructions after the first ones (wrap points of 8/16-bit generation counters)
+pub const MANY_SIBLINGS: u16 = 0xfffd;
 
 pub fn solo(cfg: &Config) -> Result<Seq, Fail> {
     run_seq(cfg, cfg.slots().min(1 << 40) as usize, 2)
@@ -74,8 +84,67 @@ pub fn check(c: &Case) -> CheckResult {
         Ok(())
     };
     let mut restarts = 0u64;
+    let mut failed_siblings = 0u64;
+    let mut sibling_batches = 0u64;
+    let mut big_batch_done = false;
+    let sibling = |n: u64, flop: &[u8; 3]| {
+        // a short-lived evaluator on another flop
+        let mut v: Vec<u8> = vec![];
+        let mut c = (n % 52) as u8;
+        while v.len() < 3 {
+            if !flop.contains(&c) && !v.contains(&c) {
+                v.push(c);
+            }
+            c = (c + 1) % 52;
+        }
+        let f = [v[0], v[1], v[2]];
+        let e = espada::evaluator::FlopExhaustiveEvaluator::new(&crate::cards::e_board(&f), &vec![]);
+        let mut it = e.into_iter();
+        std::hint::black_box(it.next().is_some());
+    };
     for (e, burst) in &c.schedule {
         let i = *e as usize % k;
+        if *burst == FAILED_SIBLING {
+            let flop = c.cfgs[i].flop;
+            let mut b = crate::cards::e_board(&flop);
+            let extra = (0..52u8).find(|x| !flop.contains(x)).unwrap();
+            match e / 8 % 3 {
+                0 => b[3] = Some(crate::cards::e_card(extra)),
+                1 => b[2] = b[0],
+                _ => b[2] = None,
+            }
+            let players: Vec<espada::hand_range::HandRange> = c.cfgs[i].ranges.iter().map(|r| r.to_espada()).collect();
+            let _ = catch(|| {
+                let ev = espada::evaluator::FlopExhaustiveEvaluator::new(&b, &players);
+                let mut it = ev.into_iter();
+                std::hint::black_box(it.next().is_some());
+            });
+            failed_siblings += 1;
+            continue;
+        }
+        if *burst == MANY_SIBLINGS {
+            let big = e % 4 == 0 && !big_batch_done;
+            let n = if big { 65_500 } else { 250 };
+            big_batch_done |= big;
+            for j in 0..n {
+                sibling(j, &c.cfgs[i].flop);
+            }
+            for j in 0..64u64 {
+                sibling(j + 7, &c.cfgs[i].flop);
+                let r = (i + j as usize) % k;
+                if got[r].len() > expected[r].len() || got[r][..] != expected[r][..got[r].len()] {
+                    return Err(Fail::new("interleaving-differs", format!("evaluator {} of {}: the {} showdowns it yielded before being dropped are not a prefix of its solo sequence (after {}+{} short-lived sibling evaluators)", r, k, got[r].len(), n, j)));
+                }
+                its[r] = build(r, &mut shared);
+                got[r].clear();
+                done[r] = false;
+                step(r, &mut its, &mut got, &mut done)?;
+                step(r, &mut its, &mut got, &mut done)?;
+            }
+            sibling_batches += if big { 1 << 32 } else { 1 };
+            last = None;
+            continue;
+        }
         if *burst == DROP_RESTART {
             // drop this evaluator's iterator in mid-run and start an identically constructed one:
             // what it yielded so far must be a prefix of its solo sequence, the new instance
@@ -153,6 +222,15 @@ pub fn check(c: &Case) -> CheckResult {
     if restarts > 0 {
         cls |= 16;
     }
+    if failed_siblings > 0 {
+        cls |= 128;
+    }
+    if sibling_batches & 0xffff_ffff > 0 {
+        cls |= 256;
+    }
+    if sibling_batches >> 32 > 0 {
+        cls |= 512;
+    }
     if (0..k).any(|i| (0..i).any(|j| c.cfgs[i].ranges == c.cfgs[j].ranges && !c.cfgs[i].ranges.is_empty() && {
         let (mut a, mut b) = (c.cfgs[i].flop, c.cfgs[j].flop);
         a.sort_unstable();
@@ -163,7 +241,7 @@ pub fn check(c: &Case) -> CheckResult {
     }
     Ok(Outcome::new(k >= 2 && switches_live > 0, fp_of(&format!("{:?}", c)), cls))
 }
-pub const CLASSES: &[&str] = &["context_switch_between_live_evaluators", "identical_evaluators", "same_inputs_different_scope", "hundred_plus_switches", "drop_and_restart_mid_run", "same_flop_cards_other_order", "shared_ranges_on_different_flops"];
+pub const CLASSES: &[&str] = &["context_switch_between_live_evaluators", "identical_evaluators", "same_inputs_different_scope", "hundred_plus_switches", "drop_and_restart_mid_run", "same_flop_cards_other_order", "shared_ranges_on_different_flops", "failed_sibling_evaluator", "about_256_sibling_evaluators", "about_65536_sibling_evaluators"];
 
 pub fn scoped_cfg() -> impl Strategy<Value = Config> {
     (cfg_strategy(), proptest::option::weighted(0.6, window_strategy())).prop_map(|(mut c, w)| {
@@ -207,8 +285,19 @@ pub fn cfgs_strategy(max: usize) -> impl Strategy<Value = Vec<Config>> {
 }
 
 pub fn strategy() -> impl Strategy<Value = Case> {
-    let burst = prop_oneof![8 => Just(1u16), 4 => 1u16..8, 2 => 1u16..400, 2 => Just(5000u16), 1 => Just(DROP_RESTART)];
-    (cfgs_strategy(4), proptest::collection::vec((any::<u8>(), burst), 0..300)).prop_map(|(cfgs, schedule)| Case { cfgs, schedule })
+    let burst = prop_oneof![8 => Just(1u16), 4 => 1u16..8, 2 => 1u16..400, 2 => Just(5000u16), 1 => Just(DROP_RESTART), 1 => Just(FAILED_SIBLING), 1 => prop_oneof![40 => Just(1u16), 1 => Just(MANY_SIBLINGS)]];
+    // in half of the cases no burst is longer than three calls: long bursts drain the evaluators
+    // within a few entries, after which nothing is interleaved any more
+    (cfgs_strategy(4), proptest::collection::vec((any::<u8>(), burst), 0..300), any::<bool>()).prop_map(|(cfgs, mut schedule, fine)| {
+        if fine {
+            for e in schedule.iter_mut() {
+                if e.1 >= 4 && e.1 < MANY_SIBLINGS {
+                    e.1 = 1 + e.1 % 3;
+                }
+            }
+        }
+        Case { cfgs, schedule }
+    })
 }
 
 // ---------------------------------------------------------------------------------------------
@@ -284,7 +373,7 @@ pub fn heavy_thread_strategy() -> impl Strategy<Value = ThreadCase> {
 }
 
 pub fn run(ctx: &mut Ctx) {
-    ctx.rule = "in-process: 1-6 live evaluators over small generated configurations (some identical, some differing only by scope, by the order of the three flop cards, or using the same ranges on another flop; evaluators with equal ranges are built from one shared Vec<HandRange>, the solo references from fresh objects), a generated schedule of (evaluator, burst) steps (single steps, short bursts, long bursts, finish-one-then-resume, dropping an iterator in mid-run and starting an identically constructed one) followed by a round-robin drain; each evaluator's interleaved fingerprint sequence must equal, element by element, the sequence of an identically constructed evaluator iterated alone. Thread part (isolated binary, one process per case): 1-19 evaluators each drained on its own thread behind a barrier, evaluators built on the main thread and moved, ranges shared through Arc, showdowns sent back through a channel, collected showdowns shared through one Arc and read by four threads at once, iterators advanced on one thread and handed over to another; 1-3 rounds; stream heavy_thread_rounds: 4-16 evaluators over 6-24-combo two-player ranges on different flops (up to 400k slots each) drained simultaneously. Non-trivial = >= 2 evaluators with >= 1 context switch between two non-exhausted evaluators (threads: >= 2 concurrent evaluators); distinct by case.".into();
+    ctx.rule = "in-process: 1-6 live evaluators over small generated configurations (some identical, some differing only by scope, by the order of the three flop cards, or using the same ranges on another flop; evaluators with equal ranges are built from one shared Vec<HandRange>, the solo references from fresh objects), a generated schedule of (evaluator, burst) steps (single steps, short bursts, long bursts, finish-one-then-resume, dropping an iterator in mid-run and starting an identically constructed one; building and starting an evaluator with an invalid board - a fourth card, a flop card twice, two cards - under catch_unwind; building about 250 or about 65,500 short-lived evaluators on other flops and then restarting the case's evaluators over the next 64 constructions) followed by a round-robin drain; each evaluator's interleaved fingerprint sequence must equal, element by element, the sequence of an identically constructed evaluator iterated alone. Thread part (isolated binary, one process per case): 1-19 evaluators each drained on its own thread behind a barrier, evaluators built on the main thread and moved, ranges shared through Arc, showdowns sent back through a channel, collected showdowns shared through one Arc and read by four threads at once, iterators advanced on one thread and handed over to another; 1-3 rounds; stream heavy_thread_rounds: 4-16 evaluators over 6-24-combo two-player ranges on different flops (up to 400k slots each) drained simultaneously. Non-trivial = >= 2 evaluators with >= 1 context switch between two non-exhausted evaluators (threads: >= 2 concurrent evaluators); distinct by case.".into();
     ctx.assumptions = vec![
         "OS thread schedules are only sampled; the deterministic single-thread interleavings are the deciding step for shared state through statics or thread-locals".into(),
         "Send/Sync of FlopExhaustiveEvaluator, its iterator, HandRange, Showdown, HandRangeToken, MadeHand, CardPair is a compile-time by-product of building c15_threads".into(),
@@ -304,6 +393,10 @@ pub fn run(ctx: &mut Ctx) {
     ctx.require_class("interleavings", "same_flop_cards_other_order", cases / 20);
     ctx.require_class("interleavings", "shared_ranges_on_different_flops", cases / 20);
     ctx.require_class("interleavings", "same_inputs_different_scope", cases / 20);
+    ctx.require_class("interleavings", "hundred_plus_switches", cases / 40);
+    ctx.require_class("interleavings", "failed_sibling_evaluator", cases / 4);
+    ctx.require_class("interleavings", "about_256_sibling_evaluators", cases / 40);
+    ctx.require_class("interleavings", "about_65536_sibling_evaluators", cases / 200);
     if std::env::var("C15_COMPILE_FAIL").is_err() {
         if !std::path::Path::new(&threads_bin()).exists() {
             ctx.unhealthy.push(format!("{} is missing", threads_bin()));
